@@ -56,6 +56,7 @@ SMT_RESERVED = {
 HR_RESERVED = {"False", "True", "xor", "bv2nat", "bvcomp", "ROR", "ROL", "ZEXT", "SEXT", "ToReal", "Int", "Real", "Bool",
                "forall", "exists", "Array", "BV", "str", "a", "s", "u"}
 
+HR_BAD_POOL = ["forall", "exists", "a.b", "k!1", "x'", "?v", "a\\b", ".def_0", "x-y", "it's", "e^2", "<w>"]
 NAME_POOL_SIMPLE = ["x", "y", "z", "p", "q", "r", "v0", "w_1", "foo", "Bar", "a.b", "?v", "$t", "@c", "k!1", "x-y", "e^2",
                     "~n", "&r", "t%", "<w>", "_u", "A1", "zz9"]
 NAME_POOL_QUOTED = ["a b", "x y z", "1x", "9", "a;b", "a\"b", "(p)", "a,b", "#q", ":k", "a[0]", "{c}", "tab\there",
@@ -89,6 +90,13 @@ class Names:
                 self.used.add(n)
                 self.kinds[n] = "def-like"
                 return n
+        if self.hr and r.random() < 0.03:
+            # a name the HR format cannot carry (F30; outside `HR.hrName`): about one symbol in twenty of the HR universes
+            n = r.choice(HR_BAD_POOL)
+            if n not in self.used:
+                self.used.add(n)
+                self.kinds[n] = "f30"
+                return n
         for _ in range(100):
             k = r.random()
             if k < 0.45:
@@ -105,10 +113,13 @@ class Names:
                 n = n + str(r.randint(0, 9)) if r.random() < 0.5 else base + n
             if n == "" or n in self.used or n in SMT_RESERVED or _spells_literal(n):
                 continue
-            if self.hr and (n in HR_RESERVED or "'" in n or
-                            (_smt_simple(n) and not re.match(r"^[A-Za-z_][A-Za-z0-9_]*$", n))):
+            if self.hr and n in HR_RESERVED and n not in ("forall", "exists"):
+                continue
+            if self.hr and hr_name_class(n) is not None:
                 # the HR printer quotes exactly the names that are not SMT-LIB simple symbols, the HR lexer reads
-                # [A-Za-z_][A-Za-z0-9_]* : names in between (a.b, ?v, k!1, .def_0) are witnesses of F30, not part of the stream
+                # [A-Za-z_][A-Za-z0-9_]* and knows no escape inside '...': names in between (a.b, ?v, k!1, .def_0), names
+                # spelling a keyword rule (forall, exists) and names holding ' or \ are witnesses of F30 -- about one
+                # symbol in twelve of the HR universes is such a name (tagged by `hr_known_shape`, outside `hrName`)
                 continue
             self.used.add(n)
             self.kinds[n] = kind
@@ -116,6 +127,29 @@ class Names:
         n = base + "_%d" % len(self.used)
         self.used.add(n)
         return n
+
+
+def hr_name_class(n):
+    """None when the HR format can carry the name `n` (Lean: `HR.hrName`, identifier map aside), else the F30 shape tag"""
+    if "'" in n or "\\" in n:
+        return "identifier-with-quote"
+    if n in ("Int", "Real", "Bool") or not _smt_simple(n):
+        return None                                  # printed between quotes
+    if n in ("forall", "exists"):
+        return "identifier-spelling-a-keyword"
+    if not re.match(r"^[A-Za-z_][A-Za-z0-9_]*\Z", n):
+        return "identifier-printed-unquoted"
+    return None
+
+
+def _trim_global_caches():
+    """the oracles of pySMT's GLOBAL environment (behind f.get_free_variables() ...) memoise on FNodes hashed by their
+    per-environment node id: with the terms of thousands of environments the tables degenerate; they are only caches"""
+    from pysmt.environment import get_env
+    for v in vars(get_env()).values():
+        memo = getattr(v, "memoization", None)
+        if isinstance(memo, dict):
+            memo.clear()
 
 
 def _smt_simple(n):
@@ -363,6 +397,7 @@ def run_smt_roundtrip(ctx, n):
         if ctx.time_left() < (70 if quick else 300):
             break
         if i % 25 == 0:
+            _trim_global_caches()
             env = Environment()
             names = Names(ctx.rng, def_run=ctx.rng.random() < 0.5)
             if names.run:
@@ -698,6 +733,8 @@ def run_script_roundtrip(ctx, n):
     for i in range(n):
         if ctx.time_left() < (60 if quick else 250):
             break
+        if i % 20 == 0:
+            _trim_global_caches()
         env = Environment()
         names = Names(ctx.rng, esc=False, def_run=ctx.rng.random() < 0.4)
         profile = ctx.rng.choice(["mixed", "mixed", "real", "bv", "int"])
@@ -1142,8 +1179,17 @@ def hr_known_shape(f, names):
         nt = n.node_type()
         if nt == op.STR_CONSTANT and '"' in n.constant_value():
             tags.add("string-with-quote")
-        if nt == op.SYMBOL and "'" in n.symbol_name():
-            tags.add("identifier-with-quote")
+        nms = []
+        if nt == op.SYMBOL:
+            nms.append(n.symbol_name())
+        elif nt == op.FUNCTION:
+            nms.append(n.function_name().symbol_name())
+        elif nt in (op.FORALL, op.EXISTS):
+            nms += [v.symbol_name() for v in n.quantifier_vars()]
+        for nm in nms:
+            c = hr_name_class(nm)
+            if c:
+                tags.add(c)
     return tags
 
 
@@ -1155,6 +1201,7 @@ def run_hr_roundtrip(ctx, n, lines, meta):
         if ctx.time_left() < (50 if quick else 200):
             break
         if i % 25 == 0:
+            _trim_global_caches()
             env = Environment()
             names = Names(ctx.rng, hr=True, esc=False)
             uni = NamedUniverse(env, names)
@@ -1411,6 +1458,10 @@ def run_hr_model(ctx):
             ctx.count("k_hr_parse_agree")
         # 3. the theorems' statements on the implementation
         frag, frag_n, self_rt = a_frag.split()
+        if tags and (frag == "true" or frag_n == "true"):
+            ctx.report_k("HR fragment: a formula with an F30 shape (%s) is inside the fragment of the theorems: %s"
+                         % (tags, text[:200]), rep)
+            continue
         if frag == "true":
             ctx.count("k_hr_in_fragment")
             if self_rt != "same" or frag_n != "true":
@@ -1565,7 +1616,7 @@ def run(ctx):
     run_smt_roundtrip(ctx, 900 if quick else 15000)
     run_script_roundtrip(ctx, 150 if quick else 2500)
     run_text_script_roundtrip(ctx, 250 if quick else 4000)
-    run_parser_reuse(ctx, 60 if quick else 800)
+    run_parser_reuse(ctx, 60 if quick else 300)
     run_hr_roundtrip(ctx, 900 if quick else 15000, lines, meta)
     finish_sem(ctx, lines, meta)
     run_model(ctx)
